@@ -1903,4 +1903,96 @@ end
 theorem Kpow_group {α : Type} [Field α] (K : α) (hK : K ≠ 0) (n m : Int) : K ^ n * K ^ m = K ^ (n + m) :=
   (zpow_add₀ hK n m).symm
 
+/-! ### the constructor -/
+
+theorem getI_cons (a : String) (b : Int) (t : List (String × Int)) (k : String) :
+    getI ((a, b) :: t) k = if k = a then b else getI t k := by
+  unfold getI
+  rw [List.lookup_cons]
+  by_cases h : k = a
+  · subst h; simp
+  · have : (k == a) = false := by simpa using h
+    simp [this, h]
+
+/-- the stored naturals are the given coefficients when none is negative -/
+theorem get_nat (l : List (String × Int)) (k : String) (h : ∀ kv ∈ l, 0 ≤ kv.2) :
+    ((get (l.map (fun kv => (kv.1, kv.2.toNat))) k : Nat) : Int) = getI l k := by
+  induction l with
+  | nil => rfl
+  | cons x t ih =>
+    obtain ⟨a, b⟩ := x
+    have hb : 0 ≤ b := h (a, b) (by simp)
+    have ih' := ih (fun kv hkv => h kv (List.mem_cons_of_mem _ hkv))
+    simp only [List.map_cons]
+    rw [get_cons, getI_cons]
+    by_cases hk : k = a
+    · simp only [hk, if_true]; omega
+    · simp only [hk, if_false]; exact ih'
+
+theorem rawAllPositive_iff (r p ir ip : List (String × Int)) :
+    rawAllPositive r p ir ip = true ↔ ∀ kv ∈ r ++ p ++ ir ++ ip, 0 ≤ kv.2 := by
+  unfold rawAllPositive
+  simp only [List.all_eq_true, decide_eq_true_eq]
+
+/-- `Equilibrium(reac, prod, K, inact_reac, inact_prod)` with the default checks returns an object **iff** no coefficient
+    is negative and some species has a non-zero net coefficient; the object then lists exactly the given coefficients. -/
+theorem mkEqChecks_default (d : Bool) (r p ir ip : List (String × Int)) (K : Option α) :
+    (∃ e, mkEqChecks d r p ir ip K none none = .ok e) ↔
+      (∀ kv ∈ r ++ p ++ ir ++ ip, 0 ≤ kv.2) ∧ ∃ k, getI p k - getI r k + getI ip k - getI ir k ≠ 0 := by
+  have hnames : symmDiff defaultChecks [] = defaultChecks := by decide
+  unfold mkEqChecks
+  simp only [Option.isSome_none, Bool.and_self, Bool.false_eq_true, if_false, hnames]
+  have h1 : (defaultChecks.any fun c => !defaultChecks.contains c) = false := by decide
+  have h2 : defaultChecks.contains "all_positive" = true := by decide
+  have h3 : defaultChecks.contains "any_effect" = true := by decide
+  simp only [h1, h2, h3, Bool.true_and, Bool.false_eq_true, if_false]
+  by_cases hpos : rawAllPositive r p ir ip = true
+  · have hall := (rawAllPositive_iff r p ir ip).1 hpos
+    simp only [hpos, Bool.not_true, Bool.false_eq_true, if_false]
+    have hr : ∀ kv ∈ r, 0 ≤ kv.2 := fun kv h => hall kv (by simp [h])
+    have hp : ∀ kv ∈ p, 0 ≤ kv.2 := fun kv h => hall kv (by simp [h])
+    have hir : ∀ kv ∈ ir, 0 ≤ kv.2 := fun kv h => hall kv (by simp [h])
+    have hip : ∀ kv ∈ ip, 0 ≤ kv.2 := fun kv h => hall kv (by simp [h])
+    have hnet : ∀ k, (⟨initStoich d (r.map fun kv => (kv.1, kv.2.toNat)), initStoich d (p.map fun kv => (kv.1, kv.2.toNat)),
+        initStoich d (ir.map fun kv => (kv.1, kv.2.toNat)), initStoich d (ip.map fun kv => (kv.1, kv.2.toNat)), K⟩ : Equil α).net k
+        = getI p k - getI r k + getI ip k - getI ir k := by
+      intro k
+      simp only [Equil.net, get_initStoich, get_nat _ k hr, get_nat _ k hp, get_nat _ k hir, get_nat _ k hip]
+    constructor
+    · rintro ⟨e, he⟩
+      refine ⟨hall, ?_⟩
+      split at he
+      · cases he
+      · rename_i hany
+        have hany' := (anyEffect_iff _).1 (by simpa using hany)
+        obtain ⟨k, hk⟩ := hany'
+        exact ⟨k, by rw [← hnet k]; exact hk⟩
+    · rintro ⟨_, k, hk⟩
+      have : (⟨initStoich d (r.map fun kv => (kv.1, kv.2.toNat)), initStoich d (p.map fun kv => (kv.1, kv.2.toNat)),
+        initStoich d (ir.map fun kv => (kv.1, kv.2.toNat)), initStoich d (ip.map fun kv => (kv.1, kv.2.toNat)), K⟩ : Equil α).anyEffect = true :=
+        (anyEffect_iff _).2 ⟨k, by rw [hnet k]; exact hk⟩
+      simp only [this, Bool.not_true, Bool.false_eq_true, if_false]
+      exact ⟨_, rfl⟩
+  · have hneg : rawAllPositive r p ir ip = false := by simpa using hpos
+    simp only [hneg, Bool.not_false, if_true]
+    constructor
+    · rintro ⟨e, he⟩; cases he
+    · rintro ⟨hall, _⟩
+      exact absurd ((rawAllPositive_iff r p ir ip).2 hall) hpos
+
+section field
+variable [Field α] [DecidableEq α]
+
+/-- scaling as Python dispatches it returns an equilibrium **iff** the multiplier is an integer `n ≠ 0`, the operand has a net
+    effect and no `0 ** negative` is needed; every multiplier that is not an integer is refused (`TypeError`) -/
+theorem rmulPy_isOk (m : Option Int) (e : Equil α) :
+    (∃ r, rmulPy m e = .ok r) ↔ ∃ n, m = some n ∧ n ≠ 0 ∧ (∃ k, e.net k ≠ 0) ∧ (n < 0 → e.K ≠ some 0) := by
+  cases m with
+  | none => simp [rmulPy]
+  | some n =>
+    simp only [rmulPy, Option.some.injEq, exists_eq_left']
+    exact rmul_isOk n e
+
+end field
+
 end ChemModel.Equilibria
